@@ -74,6 +74,12 @@ type orderAnalysis struct {
 	p       *Prog
 	r       *Report
 	tainted map[*ssa.Function]bool
+	// parsers: leaving the loop by returning a non-nil error is accepted (which
+	// error is reported may depend on the order; the successful result does not)
+	allowErrExit bool
+	rule         string
+	// mapsOnly: only maps (and lists that inherited a map's order) count as unordered
+	mapsOnly bool
 }
 
 type loopDesc struct {
@@ -221,6 +227,12 @@ func (oa *orderAnalysis) unorderedSource(v ssa.Value, seen map[ssa.Value]bool) (
 		b, ok := s.Elem().Underlying().(*types.Basic)
 		return ok && b.Kind() == types.String
 	}
+	if oa.mapsOnly {
+		switch v.(type) {
+		case *ssa.Parameter, *ssa.Lookup, *ssa.TypeAssert, *ssa.Extract:
+			return "", false
+		}
+	}
 	switch x := v.(type) {
 	case *ssa.Parameter:
 		if funcName(x.Parent()) == "MarshalResource" && isStrSlice(x.Type()) {
@@ -242,7 +254,7 @@ func (oa *orderAnalysis) unorderedSource(v ssa.Value, seen map[ssa.Value]bool) (
 		}
 	case *ssa.UnOp:
 		if x.Op == token.MUL {
-			if _, fl, ok := fieldLoad(x); ok && fl == "Included" {
+			if _, fl, ok := fieldLoad(x); ok && fl == "Included" && !oa.mapsOnly {
 				return "the included list", true
 			}
 			// a local variable: whatever was stored in it
@@ -409,13 +421,20 @@ func (oa *orderAnalysis) checkFunction(f *ssa.Function) (nLoops, nUnordered, nSo
 		key := fmt.Sprintf("%s:loop over %s", name, ld.what)
 		pos := p.pos(loopPos(ld))
 		if ld.kind == "slice" && oa.sortedBefore(ld.src, ld.header, nil) {
-			r.ok("R7.order-insensitive", key, pos, "runs on a value canonicalised by a dominating sort")
+			r.ok(oa.ruleName(), key, pos, "runs on a value canonicalised by a dominating sort")
 			continue
 		}
 		why := oa.orderInsensitive(ld)
-		r.decide(why == "", "R7.order-insensitive", key, pos, "order-insensitive body (keyed stores, constant flags, sorted collection, match-only exits)", "the result depends on the order of "+ld.what+": "+why)
+		r.decide(why == "", oa.ruleName(), key, pos, "order-insensitive body (keyed stores, constant flags, sorted collection, match-only exits)", "the result depends on the order of "+ld.what+": "+why)
 	}
 	return
+}
+
+func (oa *orderAnalysis) ruleName() string {
+	if oa.rule != "" {
+		return oa.rule
+	}
+	return "R7.order-insensitive"
 }
 
 // checkSort: C11.sort-canon for one sort call.
@@ -689,6 +708,48 @@ func (oa *orderAnalysis) orderInsensitive(ld *loopDesc) string {
 			return elemDerived(x.X, depth+1)
 		case *ssa.ChangeType:
 			return elemDerived(x.X, depth+1)
+		case *ssa.Slice:
+			return elemDerived(x.X, depth+1)
+		case *ssa.Convert:
+			return elemDerived(x.X, depth+1)
+		}
+		return false
+	}
+	// uniqueGuard: the block runs only when the map key equals a constant, that is
+	// in at most one iteration (map keys are unique)
+	uniqueGuard := func(b *ssa.BasicBlock) bool {
+		if ld.kind != "map" || ld.next == nil || len(ld.header.Succs) == 0 {
+			return false
+		}
+		return mustPassEdgeFrom(ld.header.Succs[0], b, func(cond ssa.Value, truth bool) bool {
+			bo, ok := cond.(*ssa.BinOp)
+			if !ok || bo.Op != token.EQL || !truth {
+				return false
+			}
+			for _, pr := range [][2]ssa.Value{{bo.X, bo.Y}, {bo.Y, bo.X}} {
+				ex, isEx := pr[0].(*ssa.Extract)
+				_, isC := pr[1].(*ssa.Const)
+				if isEx && isC && ex.Tuple == ssa.Value(ld.next) && ex.Index == 1 {
+					return true
+				}
+			}
+			return false
+		}) && b != ld.header.Succs[0]
+	}
+	// lazyInit: L = fresh empty map, executed only when L is nil
+	lazyInit := func(st *ssa.Store) bool {
+		if _, ok := st.Val.(*ssa.MakeMap); !ok {
+			return false
+		}
+		want := pathOf(st.Addr, 0)
+		for _, ef := range expandFacts(factsAt(st.Block())) {
+			bo, ok := ef.Cond.(*ssa.BinOp)
+			if !ok || bo.Op != token.EQL || !ef.Truth || !isNilConst(bo.Y) {
+				continue
+			}
+			if ld2, ok := bo.X.(*ssa.UnOp); ok && ld2.Op == token.MUL && pathOf(ld2.X, 0) == want {
+				return true
+			}
 		}
 		return false
 	}
@@ -807,6 +868,9 @@ func (oa *orderAnalysis) orderInsensitive(ld *loopDesc) string {
 				if inLoop(base) {
 					continue
 				}
+				if uniqueGuard(x.Block()) || lazyInit(x) {
+					continue
+				}
 				if cb, isC := x.Val.(*ssa.Const); isC && cb != nil {
 					// a constant flag in a spilled variable
 					if _, isAl := base.(*ssa.Alloc); isAl {
@@ -819,11 +883,14 @@ func (oa *orderAnalysis) orderInsensitive(ld *loopDesc) string {
 				if inLoop(base) {
 					continue
 				}
-				if elemDerived(x.Key, 0) {
+				if elemDerived(x.Key, 0) || uniqueGuard(x.Block()) {
 					continue
 				}
 				bad = "the map entry " + p.describe(x) + " (" + p.pos(x.Pos()) + ") is not keyed by the current element and the map outlives the iteration: what one iteration stores is seen by the next"
 			case *ssa.Call:
+				if uniqueGuard(x.Block()) {
+					continue
+				}
 				if why := oa.callNeutral(x, ld, inLoop, baseOf, elemDerived); why != "" {
 					bad = why
 				}
@@ -857,6 +924,9 @@ func (oa *orderAnalysis) orderInsensitive(ld *loopDesc) string {
 						matched = true
 					}
 				}
+			}
+			if !matched && oa.allowErrExit && onlyErrorReturns(s, ld.blocks, map[*ssa.BasicBlock]bool{}) {
+				continue
 			}
 			if !matched {
 				return "the loop is left early at " + p.pos(b.Instrs[len(b.Instrs)-1].Pos()) + " without an equality match: which element stops it depends on the order"
@@ -1185,7 +1255,7 @@ func (oa *orderAnalysis) collectedUseOKRec(phi *ssa.Phi, ld *loopDesc, seenPhi m
 
 // read-only standard-library callees (by package path prefix / name)
 func stdReadOnly(full string) bool {
-	for _, pre := range []string{"encoding/json.Marshal", "sort.Strings", "sort.Slice", "strings.", "net/url.QueryEscape", "net/url.PathEscape", "fmt.Sprint", "fmt.Sprintf", "fmt.Errorf", "errors.New", "strconv.", "reflect.", "bytes.Equal", "bytes.Compare", "unicode/utf8."} {
+	for _, pre := range []string{"encoding/json.Marshal", "sort.Strings", "sort.Slice", "strings.", "net/url.QueryEscape", "net/url.PathEscape", "net/url.(Values).Get", "fmt.Sprint", "fmt.Sprintf", "fmt.Errorf", "errors.New", "strconv.", "reflect.", "bytes.Equal", "bytes.Compare", "unicode/utf8."} {
 		if strings.HasPrefix(full, pre) {
 			return true
 		}
@@ -1379,4 +1449,53 @@ func loopPos(ld *loopDesc) token.Pos {
 		}
 	}
 	return token.NoPos
+}
+
+// onlyErrorReturns: every path from b (outside the loop) ends in a return whose
+// last result is a non-nil error, without re-entering the loop.
+func onlyErrorReturns(b *ssa.BasicBlock, loop map[*ssa.BasicBlock]bool, seen map[*ssa.BasicBlock]bool) bool {
+	if seen[b] {
+		return true
+	}
+	seen[b] = true
+	if loop[b] {
+		return false
+	}
+	last := b.Instrs[len(b.Instrs)-1]
+	if ret, ok := last.(*ssa.Return); ok {
+		if len(ret.Results) == 0 {
+			return false
+		}
+		e := ret.Results[len(ret.Results)-1]
+		if !isErrorType(e.Type()) {
+			return false
+		}
+		if _, isMI := e.(*ssa.MakeInterface); isMI {
+			return true
+		}
+		if c, isC := e.(*ssa.Const); isC && c.Value == nil {
+			return false
+		}
+		return errNonNilAt(e, b) || func() bool {
+			if c, _ := callOf(e); c != nil {
+				if sc := c.Common().StaticCallee(); sc != nil {
+					n := fullName(sc)
+					return n == "errors.New" || n == "fmt.Errorf"
+				}
+			}
+			return false
+		}()
+	}
+	if _, ok := last.(*ssa.Panic); ok {
+		return true
+	}
+	if len(b.Succs) == 0 {
+		return false
+	}
+	for _, s := range b.Succs {
+		if !onlyErrorReturns(s, loop, seen) {
+			return false
+		}
+	}
+	return true
 }
